@@ -63,8 +63,39 @@ static std::string handle(const std::string & kind, const std::string & path)
       g.set_nuclide("Test");
       g.set_process(bxdecay0::dbd_gA::PROCESS_G0);
       g.set_shooting(kind == "pdf" ? bxdecay0::dbd_gA::SHOOTING_REJECTION : bxdecay0::dbd_gA::SHOOTING_INVERSE_TRANSFORM_METHOD);
-      g.initialize();
       const double us[] = {1e-12, 0.2, 0.4, 0.6, 0.8, 1 - 1e-12};
+      try {
+        g.initialize();
+      } catch (std::exception & e) {
+        // a refused load must leave no trace: the SAME object, initialised on the unmutated dataset, samples exactly
+        // like a new object does (rows kept from the refused file would surface here, or abort inside GSL)
+        const char * seed = getenv("C15_GA_SEED");
+        if (seed) {
+          setenv("BXDECAY0_DBD_GA_DATA_DIR", seed, 1);
+          bxdecay0::dbd_gA f;
+          f.set_nuclide("Test");
+          f.set_process(bxdecay0::dbd_gA::PROCESS_G0);
+          f.set_shooting(kind == "pdf" ? bxdecay0::dbd_gA::SHOOTING_REJECTION : bxdecay0::dbd_gA::SHOOTING_INVERSE_TRANSFORM_METHOD);
+          bool ok1 = true, ok2 = true;
+          try { g.initialize(); } catch (std::exception &) { ok1 = false; }
+          try { f.initialize(); } catch (std::exception &) { ok2 = false; }
+          if (ok1 != ok2) return std::string("{\"verdict\":\"garbage\",\"detail\":\"after the refused load the same object ") + (ok1 ? "loads" : "cannot load") + " the well-formed dataset, a new object " + (ok2 ? "loads it" : "cannot") + "\"}";
+          if (ok1)
+            for (double a : us)
+              for (double b : us) {
+                Seq r1, r2;
+                r1.v = {a, b, 0.5};
+                r2.v = r1.v;
+                double x1 = -1, y1 = -1, x2 = -2, y2 = -2;
+                bool t1 = false, t2 = false;
+                try { g.shoot_e1_e2(r1, x1, y1); } catch (std::exception &) { t1 = true; }
+                try { f.shoot_e1_e2(r2, x2, y2); } catch (std::exception &) { t2 = true; }
+                if (t1 != t2 || (!t1 && (x1 != x2 || y1 != y2 || r1.i != r2.i)))
+                  return "{\"verdict\":\"garbage\",\"detail\":\"after the refused load the same object, initialised on the well-formed dataset, samples differently from a new object (state left behind)\"}";
+              }
+        }
+        throw;
+      }
       for (double a : us)
         for (double b : us) {
           Seq r;
@@ -88,6 +119,12 @@ static std::string handle(const std::string & kind, const std::string & path)
         if (kv.second.unique_label.empty()) return "{\"verdict\":\"garbage\",\"detail\":\"mode with empty label\"}";
         if ((int)kv.first != (int)kv.second.dbd_mode) return "{\"verdict\":\"garbage\",\"detail\":\"mode record stored under another id\"}";
         if (bxdecay0::dbd_mode_from_label(kv.second.unique_label) == bxdecay0::DBDMODE_UNDEF) return "{\"verdict\":\"garbage\",\"detail\":\"label does not map back\"}";
+        // every stored field inside its enumeration: identifier 1..24, legacy Decay0 mode 1..20, "undefined" or "not available"
+        int id = (int)kv.second.dbd_mode, lg = (int)kv.second.legacy_modebb;
+        if (id < (int)bxdecay0::DBDMODE_MIN || id > (int)bxdecay0::DBDMODE_MAX) return "{\"verdict\":\"garbage\",\"detail\":\"mode identifier outside the enumeration\"}";
+        // (0 = LEGACY_MODEBB_UNDEF is an enumerator: such a mode is refused later, at initialisation)
+        if (!(lg == (int)bxdecay0::LEGACY_MODEBB_NA || lg == (int)bxdecay0::LEGACY_MODEBB_UNDEF || (lg >= (int)bxdecay0::LEGACY_MODEBB_MIN && lg <= (int)bxdecay0::LEGACY_MODEBB_MAX)))
+          return "{\"verdict\":\"garbage\",\"detail\":\"legacy mode " + std::to_string(lg) + " outside its enumeration is stored\"}";
       }
       detail = std::to_string(bxdecay0::dbd_modes().size()) + " modes";
     } else if (kind == "argv") {
